@@ -50,12 +50,11 @@ REQUIRED_THEOREMS = ['OpusProps.C11.' + n for n in (
     'reject_unchanged_multistream', 'reject_unchanged_ms_decoder',
     'constants_agree', 'ctl_inv', 'encode_never_changes_settings', 'ctl_inv_decoder', 'ctl_inv_multistream', 'create_rejects', 'create_rejects_multistream', 'create_rejects_surround',
     'create_rejects_projection', 'set_get_projection', 'reject_unchanged_projection',
-    'frame_size_select_spec', 'honour_duration', 'honour_channels', 'honour_channels_midstream',
+    'frame_size_select_spec', 'int_ranges', 'honour_duration', 'honour_channels', 'honour_channels_midstream',
     'honour_bandwidth', 'lowdelay_celt_only', 'short_frames_celt_only', 'encode_keeps_inv')]
 UNPROVED = [
-    'int_ranges: C int arithmetic is modelled as unbounded Int; that every product in frame_size_select / the budget '
-    'computation stays below 2^31 on the legal domain is not a Lean theorem (UBSan covers the explored inputs; the harness '
-    'avoids frame_size > INT_MAX/400 where 400*new_size overflows in the C code)',
+    'int ranges of the decision chain proper need no lemma (comparisons only); the SILK/CELT rate computations that '
+    'follow the chain (compute_equiv_rate etc.) are DSP oracles, outside this model',
     'MsInv after opus_multistream_encode: proved for creation and every ctl request; that a multistream encode call keeps the '
     'per-stream ranges, one common application and "no stream has coded a frame before the first stream" is monitored '
     'after every call by suite ctl-rand (CONTRACT(ms-*)), not proved',
@@ -98,6 +97,7 @@ def ties(ctx):
     out = []
     out.append(common.run_tie('ctl-honour-dtx', [h, 'honourdtx'], env=_ENV))     # corpus of past failures first
     out.append(common.run_tie('ctl-forceauto', [h, 'forceauto'], env=_ENV))
+    out.append(common.run_tie('ctl-fss-range', [h, 'fssbig'], env=_ENV))
     out.append(common.run_tie('ctl-funcs', [h, 'funcs'], env=_ENV))
     out.append(common.run_tie('ctl-create', [h, 'create', '0' if q else '1'], env=_ENV))
     out.append(common.run_tie('ctl-grid', [h, 'grid', '0' if q else '1'], env=_ENV))
